@@ -23,4 +23,12 @@ def run_lints(src, reg):
                             if not ok:
                                 problems.append({"rule": "rep-container-reassigned",
                                                  "detail": "%s.%s assigns %s outside the owner's __init__" % (cls.name, fn.name, t.attr)})
+    # doc_of(v) is a function of the value alone (pyvc/builtins_spec.py "document codecs"): a contract that speaks about
+    # document values must leave every pre-existing object as it was, i.e. modify nothing but fresh objects
+    for q, c in reg.contracts.items():
+        texts = list(c.ensures.values()) + list(c.raises.values()) + list(c.requires.values())
+        if any("doc(" in str(t) or "_parse(" in str(t) for t in texts):
+            extra = [m for m in c.modifies if m not in ("fresh", "ncalls")]
+            if extra:
+                problems.append({"rule": "doc-contracts-are-pure", "detail": "%s mentions document values but modifies %s" % (q, extra)})
     return problems
